@@ -1,4 +1,53 @@
-(* placeholder until Proofs/WorldProofs.v lands *)
-From Bisturi Require Import Model.World.
-Theorem C13_stub : ct_keeps nil = true. Proof. reflexivity. Qed.
-Print Assumptions C13_stub.
+(* C13 -- Packets are independent and pack/unpack are observationally pure.  (PARTIAL: see below.)
+   In the functional model a packet is a value, so one packet cannot change another by construction; the only state
+   OUTSIDE packets is what field objects remember between calls: `dstate`, the delimiter of a regex-delimited field
+   whose delimiter is not kept in the value (written by unpack: ghost item TDelim; read by pack).  The theorems show
+   that for every other declaration nothing is ever written to or read from it, that pack leaves every declared field
+   unchanged, and that packing again returns the same bytes.
+   NOT expressible in the model, checked on the implementation only (harness/props/C13.py): aliasing of mutable
+   sub-objects (values have no identity), real thread interleavings.  Findings D8 (the dstate itself) and D9 (a deferred
+   selector hands out one shared packet object) are KNOWN-FINDINGs. *)
+From Coq Require Import ZArith List Bool.
+From Bisturi Require Import Base.Bytes Kernel.Frag Model.Value Model.Decl Model.Unpack Model.Pack Model.Codegen Model.World
+                            Proofs.WorldProofs.
+Import ListNotations. Open Scope Z_scope.
+
+(* parsing writes no class-level state (every regex delimiter kept in the value) ... *)
+Theorem C13_parse_writes_nothing : forall fuel host ct raw c off v e t,
+  ct_keeps ct = true -> unpack_any fuel host ct raw c off = POk v e t -> no_delim t.
+Proof. exact unpack_writes_no_shared_state. Qed.
+(* ... and serializing reads none: the result is the same whatever parses of other packets left there *)
+Theorem C13_pack_reads_nothing : forall fuel host dl dl' ct c s fr,
+  ct_keeps ct = true -> slots_keep s ->
+  pack_any fuel host dl ct c s fr = pack_any fuel host dl' ct c s fr.
+Proof. exact pack_reads_no_shared_state. Qed.
+(* pack() leaves every declared field as it was (only scratch slots are written) *)
+Theorem C13_pack_preserves_fields : forall fuel host dl ct c s fr v fr',
+  pack_any fuel host dl ct c s fr = QOk v fr' ->
+  exists s', v = VPkt c s' /\ forall i, slot_get s' (FN i) = slot_get s (FN i).
+Proof. exact pack_preserves_fields. Qed.
+(* repeated pack() calls return the same bytes (declarations as a user can write them: expressions evaluated when
+   serializing mention declared field names only; bit runs: Properties/C07.C07_pack_stale_irrelevant) *)
+Theorem C13_pack_twice : forall fuel host dl ct c s b s',
+  ct_no_bits ct = true -> ct_pack_exprs_fn ct = true ->
+  pack_any_top fuel host dl ct c s = PBytes b (VPkt c s') ->
+  exists s'', pack_any_top fuel host dl ct c s' = PBytes b (VPkt c s'').
+Proof. exact pack_twice_same_bytes. Qed.
+Theorem C13_pack_twice_fresh : forall fuel host dl ct c s b s',
+  (forall f v, slot_get s f = Some v -> exists i, f = FN i) ->
+  pack_any_top fuel host dl ct c s = PBytes b (VPkt c s') ->
+  exists s'', pack_any_top fuel host dl ct c s' = PBytes b (VPkt c s'').
+Proof. exact pack_twice_same_bytes_fresh. Qed.
+(* without the side condition the statement is false: an expression reading a scratch slot sees what the first pack left *)
+Theorem C13_pack_twice_refuted_hidden_read :
+  ~ (forall fuel host dl ct c s b s', ct_no_bits ct = true ->
+       pack_any_top fuel host dl ct c s = PBytes b (VPkt c s') ->
+       exists s'', pack_any_top fuel host dl ct c s' = PBytes b (VPkt c s'')).
+Proof. exact pack_twice_refuted_hidden_read. Qed.
+
+Print Assumptions C13_parse_writes_nothing.
+Print Assumptions C13_pack_reads_nothing.
+Print Assumptions C13_pack_preserves_fields.
+Print Assumptions C13_pack_twice.
+Print Assumptions C13_pack_twice_fresh.
+Print Assumptions C13_pack_twice_refuted_hidden_read.
